@@ -183,6 +183,7 @@ pub struct Stats {
     pub f_close_stdin: u64,
     pub f_exec_child: u64,
     pub inherited_fds: u64,
+    pub inherited_by_kind: [u64; 8],
     pub p_send_blocked: u64,
     pub p_recv_blocked: u64,
     pub p_followup_blocked: u64,
@@ -477,6 +478,7 @@ fn reschedule(my: usize, exiting: bool) {
                             if fl >= 0 && fl & libc::FD_CLOEXEC as i64 == 0 {
                                 // the child's inherited copy: never closed, not in the ledger
                                 unsafe { raw6(libc::SYS_fcntl, fd as i64, libc::F_DUPFD_CLOEXEC as i64, 9000, 0, 0, 0) };
+                                gl.stats.inherited_by_kind[(gl.fds[fd].kind & 7) as usize] += 1;
                                 n += 1;
                             }
                         }
